@@ -47,3 +47,18 @@ Example C01_ex : format_frame 1 1 [72; 105] [1; 2; 3; 4] = Ok [129; 130; 1; 2; 3
 Proof. vm_compute. reflexivity. Qed.
 Example C01_ex126 : exists w, format_frame 0 2 (repeat_bytes 126 7) [9; 9; 9; 9] = Ok (2 :: 254 :: 0 :: 126 :: w).
 Proof. eexists. vm_compute. reflexivity. Qed.
+
+From WS Require Import Spec.Utf8 Gen.GenUtils Proofs.Utf8Send.
+
+(* Text: a str is a list of Unicode scalar values; send() puts str.encode("utf-8") = utf8_encode of it into the frame (tie B
+   compares the two on random text incl. astral planes).  For EVERY text that payload is well-formed UTF-8 as judged by the
+   validator regenerated from websocket/_utils.py, and it determines the text. *)
+Theorem C01_text : forall cs, forallb scalar cs = true -> validate_utf8 (utf8_encode cs) = true.
+Proof. exact text_payload_accepted. Qed.
+Print Assumptions C01_text.
+
+Theorem C01_text_injective : forall cs1 cs2,
+  forallb scalar cs1 = true -> forallb scalar cs2 = true -> utf8_encode cs1 = utf8_encode cs2 -> cs1 = cs2.
+Proof. exact text_payload_determines_text. Qed.
+Print Assumptions C01_text_injective.
+
